@@ -6,7 +6,7 @@ context-manager classes, the four gate functions) and every gate site reached th
 History: a seeded, nested program of enable/disable calls, `with enable():` /
 `with disable():` blocks (depth <= 4) whose bodies may raise at a drawn position (a
 harness exception or the GuppyError of a rejected check, caught at a drawn outer level),
-interleaved with checks of probe programs (13 gated constructs x 7 contexts + control).
+interleaved with checks of probe programs (15 gated constructs x 7 contexts + control).
 Reference model: an explicit save/restore stack.  Invariants after every op.
 """
 from __future__ import annotations
@@ -32,7 +32,7 @@ MANIFEST = {
     "level": LEVEL,
     "technique": "deterministic simulation: seeded histories of nested enable/disable context managers with injected exceptional exits, checked against a save/restore stack model",
     "text": "Seeded exploration of histories (nesting <= 4, exceptions injected at drawn positions and caught at drawn levels) over the real flag, context managers and all gate sites; after every op the flag equals the reference stack model and every probe program is accepted iff ungated or the model says the gate is open. Sampling, not proof.",
-    "note": "Trusted: the reference stack model (20 lines), the probe-program table (validated: all 91 kind x context pairs are rejected closed / accepted open on the unchanged tree), the compat shim.",
+    "note": "Trusted: the reference stack model (20 lines), the probe-program table (validated: all 105 gated kind x context pairs are rejected closed / accepted open on the unchanged tree), the compat shim.",
     "design_ref": "DESIGN.md section 3 (C33)",
 }
 
